@@ -337,7 +337,47 @@ func c01body(c *Ctx, a *procAnchors) {
 	entryOf := func(st *ssa.Store) (digestOf ssa.Value) {
 		fa := st.Addr.(*ssa.FieldAddr)
 		lk, ok := fa.X.(*ssa.Lookup)
-		if !ok || loadedField(lk.X) != a.fVaaSigs {
+		if ph, isPhi := fa.X.(*ssa.Phi); isPhi {
+			// the entry hoisted into a local: `e := m[k]; if e == nil { e = &vaaState{…}; m[k] = e }`
+			// — every leaf is the lookup m[k] or a fresh entry stored under the same key
+			var keyTerm string
+			good := true
+			for _, leaf := range phiLeaves(ph) {
+				switch x := leaf.(type) {
+				case *ssa.Lookup:
+					if loadedField(x.X) != a.fVaaSigs {
+						good = false
+					}
+					if keyTerm == "" {
+						keyTerm = facts.Term(x.Index)
+						lk, ok = x, true
+					} else if keyTerm != facts.Term(x.Index) {
+						good = false
+					}
+				case *ssa.Alloc:
+					stored := false
+					if x.Referrers() != nil {
+						for _, r := range *x.Referrers() {
+							if mu, isMU := r.(*ssa.MapUpdate); isMU && mu.Value == ssa.Value(x) && loadedField(mu.Map) == a.fVaaSigs && (keyTerm == "" || facts.Term(mu.Key) == keyTerm) {
+								stored = true
+								if keyTerm == "" {
+									keyTerm = facts.Term(mu.Key)
+								}
+							}
+						}
+					}
+					if !stored {
+						good = false
+					}
+				default:
+					good = false
+				}
+			}
+			if !good {
+				return nil
+			}
+		}
+		if !ok || lk == nil || loadedField(lk.X) != a.fVaaSigs {
 			return nil
 		}
 		h := asCall(lk.Index, "encoding/hex.EncodeToString")
